@@ -316,6 +316,12 @@ impl HandshakeState {
         if byte_index + payload.len() + TAGLEN > message.len() {
             return Err(Error::Input);
         }
+        // Refuse an oversize message before the payload is encrypted: failing afterwards
+        // would let a retry encrypt a different payload under the same key and nonce.
+        let payload_tag_len = if self.symmetricstate.has_key() { TAGLEN } else { 0 };
+        if byte_index + payload.len() + payload_tag_len > MAXMSGLEN {
+            return Err(Error::Input);
+        }
         byte_index +=
             self.symmetricstate.encrypt_and_mix_hash(payload, &mut message[byte_index..])?;
         if byte_index > MAXMSGLEN {
